@@ -329,7 +329,7 @@ def get_func_source(func: Callable) -> str:
     # Try to trim away the decorators.
     lines = source.split("\n")
     for i, line in enumerate(lines):
-        if re.match(r"^ *(async +)?def ", line):
+        if re.match(r"^[ \t]*(async[ \t]+)?def[ \t]", line):
             return "\n".join(lines[i:])
 
     return source
